@@ -53,7 +53,7 @@ def check_one(case, ctx, deep):
 
 
 def plan(tier, seed):
-    return tablecheck.plan(tier, seed, wide=True, tall=True, thorough_cells=18)
+    return tablecheck.plan(tier, seed, wide=True, tall=True, odd=True, thorough_cells=18)
 
 
 def run(task, ctx):
